@@ -52,7 +52,8 @@ func (self ValueObject) IsEqual(other Value) (bool, *Interrupt) {
 		}
 	}
 
-	return true, nil
+	// a key that only exists on the other side makes the objects differ
+	return len(self.FieldsInternal) == len(otherObj.FieldsInternal), nil
 }
 
 func (self ValueObject) Fields() (map[string]*Value, *Interrupt) {
